@@ -14,7 +14,9 @@ RULE = (
     "{Exp, Softplus, default}, {Beta, Uniform} x {Sigmoid, default}, Normal x {Identity, Scale(scale=.), "
     "Shift(shift=.) with constant and variable-valued arguments}; scalar and vector variables; parameters "
     "constants or other variables; entry points Var.transform(instance | class+args | None), auto_transform "
-    "at build, deprecated GraphBuilder.transform; 20 random points t per case (parameters re-assigned too). "
+    "at build (variable added directly or only reached as an input of the added root), deprecated GraphBuilder.transform; "
+    "invalid transform calls first (must leave the variable unchanged); 20 random points t per case (parameters re-assigned "
+    "too); the identities re-checked inside deep copies / copy_nodes_and_vars rebuilds after values changed in the copy. "
     "Oracle: untouched TFP distribution, independent bijector instance, Jacobian by autodiff. "
     "non-trivial = non-identity bijector and a point with |log-Jacobian| > 0.05; distinct by case hash"
 )
